@@ -1,5 +1,4 @@
 import Solstat.Props.C12
-import Solstat.Props.C11Text
 /-!
 # C12 — the printed total reads back as a number
 
@@ -9,6 +8,22 @@ of that line gives `N` back, for every `N` (any number of digits) — so a total
 padding, or in another base cannot satisfy it.
 -/
 namespace Solstat
+
+theorem takeWhile_append_stop' {α : Type} (p : α → Bool) (xs : List α) (y : α) (ys : List α)
+    (hx : ∀ x ∈ xs, p x = true) (hy : p y = false) : (xs ++ y :: ys).takeWhile p = xs := by
+  induction xs with
+  | nil => simp [List.takeWhile, hy]
+  | cons x xs ih =>
+    simp only [List.cons_append, List.takeWhile_cons, hx x (by simp), if_true]
+    rw [ih (fun z hz => hx z (by simp [hz]))]
+
+theorem dropWhile_append_stop' {α : Type} (p : α → Bool) (xs : List α) (y : α) (ys : List α)
+    (hx : ∀ x ∈ xs, p x = true) (hy : p y = false) : (xs ++ y :: ys).dropWhile p = y :: ys := by
+  induction xs with
+  | nil => simp [List.dropWhile, hy]
+  | cons x xs ih =>
+    simp only [List.cons_append, List.dropWhile_cons, hx x (by simp), if_true]
+    exact ih (fun z hz => hx z (by simp [hz]))
 
 /-- strip a prefix -/
 def dropPrefix? : List Char → List Char → Option (List Char)
@@ -57,7 +72,7 @@ theorem readTotal_render (pre post : List Char) (n : Nat) (hpost : ∀ c ∈ pos
     simp [Nat.ofDigitChars_ten_toDigits]
   | cons y ys =>
     have hy : y.isDigit = false := hpost y (by simp)
-    simp only [takeWhile_append_stop _ _ _ _ hd hy, dropWhile_append_stop _ _ _ _ hd hy]
+    simp only [takeWhile_append_stop' _ _ _ _ hd hy, dropWhile_append_stop' _ _ _ _ hd hy]
     simp [hne, Nat.ofDigitChars_ten_toDigits]
 
 /-- the overview line of the model, as characters -/
